@@ -250,8 +250,41 @@ func checkCollector(c collectorCase) (collects int, full bool, v *verdict) {
 	nowMu.Lock()
 	defer nowMu.Unlock()
 	fakeNow = 1000
-	old := hotkey.VerifSetNow(func() int64 { return fakeNow })
+	// The collector reads the minute clock many times inside one collect / evict round. A HOTKEY reader that got the report
+	// just before the round renders it while the round runs: each clock read is used as a point of that overlap, at which
+	// the held report must still keep the four promises (probe is set around a round only).
+	var probe func()
+	old := hotkey.VerifSetNow(func() int64 {
+		if probe != nil {
+			probe()
+		}
+		return fakeNow
+	})
 	defer hotkey.VerifSetNow(old)
+	var midRound *verdict
+	probeHeld := func(where string, held []hotkey.HotKey) func() {
+		return func() {
+			if midRound != nil {
+				return
+			}
+			seen := map[string]bool{}
+			for i, k := range held {
+				if k.Counter == nil {
+					midRound = &verdict{"held-report-changes-during-round", fmt.Sprintf("%s: a report obtained before this round has an empty entry at position %d while the round runs", where, i)}
+					return
+				}
+				if seen[k.Name] {
+					midRound = &verdict{"held-report-changes-during-round", fmt.Sprintf("%s: a report obtained before this round lists %q twice while the round runs", where, k.Name)}
+					return
+				}
+				seen[k.Name] = true
+				if i > 0 && held[i-1].Counter.Value() < k.Counter.Value() {
+					midRound = &verdict{"held-report-changes-during-round", fmt.Sprintf("%s: a report obtained before this round reads heat %d then %d at positions %d,%d while the round runs", where, held[i-1].Counter.Value(), k.Counter.Value(), i-1, i)}
+					return
+				}
+			}
+		}
+	}
 	col := hotkey.VerifNewCollector(uint8(c.Capacity), time.Hour, time.Hour)
 	counters := make([]*hotkey.Counter, c.Counters)
 	for i := range counters {
@@ -290,9 +323,14 @@ func checkCollector(c collectorCase) (collects int, full bool, v *verdict) {
 			}
 			accessed[o.Key] = true
 		case "collect":
-			held := col.HotKeys() // a reader got the report just before the collection and renders it afterwards
+			held := col.HotKeys() // a reader got the report just before the collection and renders it during / after it
+			probe = probeHeld(where, held)
 			col.VerifCollect()
+			probe = nil
 			collects++
+			if midRound != nil {
+				return collects, full, midRound
+			}
 			if v := heldOrdered(where, held); v != nil {
 				return collects, full, v
 			}
@@ -300,7 +338,12 @@ func checkCollector(c collectorCase) (collects int, full bool, v *verdict) {
 			fakeNow += int64(o.Minutes)
 		case "evict":
 			held := col.HotKeys()
+			probe = probeHeld(where, held)
 			col.VerifEvictStale()
+			probe = nil
+			if midRound != nil {
+				return collects, full, midRound
+			}
 			if v := heldOrdered(where, held); v != nil {
 				return collects, full, v
 			}
